@@ -1,7 +1,7 @@
 """C03 - physical bounds: 0 <= actual rate <= pilot, power <= max, charge <= capacity."""
 from hypothesis import strategies as st
 
-from acnportal.acnsim import EV, EVSE, Battery, Linear2StageBattery
+from acnportal.acnsim import EV, EVSE, Battery, FiniteRatesEVSE, Linear2StageBattery
 
 from ..obs import patched_normal, stored_charge
 from ..runner import Given, require
@@ -13,7 +13,7 @@ RULE = (
     "stepwise; noise level 0, 0.05, 1, 5 kW) with capacity, initial charge (mass at 0, around the "
     "transition SoC, full), max power, transition SoC, voltage, period, a SEQUENCE of 1-30 pilots "
     "from {0} u [1e-8,1e3] A applied one after another through EVSE.set_pilot -> EV.charge -> "
-    "Battery.charge (the EV is occasionally unplugged and plugged into another idle EVSE), and the noise draws themselves (numpy.random.normal is patched to hand out "
+    "Battery.charge (the EV is occasionally unplugged and plugged into another idle EVSE; in a quarter of the cases the EVSE is finite-rate and the pilots sit up to 1e-3 A off its levels; a refused reset above capacity may be interleaved), and the noise draws themselves (numpy.random.normal is patched to hand out "
     "generated standard-normal values incl. 0, +-0.01, +-3, +-6 sigma). After every step: "
     "-1e-8 <= rate <= pilot+1e-8 A, power <= max power, rate*V = power, stored charge non-decreasing "
     "and <= capacity, EV energy non-decreasing. (b) simulation level: generated simulations "
@@ -44,7 +44,14 @@ def prop(spec, rec):
     cap, V, T, maxp = spec["cap"], spec["V"], spec["T"], spec["maxp"]
     batt = build_battery(spec)
     ev = EV(0, 100, 1e9, "st-1", "sess-1", batt)
-    evse = EVSE("st-1")  # continuous, 0..inf: every non-negative pilot is allowed
+    levels = spec.get("levels")
+
+    def new_evse(sid):
+        # continuous 0..inf (every non-negative pilot is allowed) or a finite-rate EVSE whose
+        # levels are the pilots of this case, applied up to 1e-3 A off the level
+        return FiniteRatesEVSE(sid, levels) if levels else EVSE(sid)
+
+    evse = new_evse("st-1")
     evse.plugin(ev)
     labels = {spec["model"]}
     if spec["model"] != "ideal" and spec["noise"] > 0:
@@ -60,9 +67,15 @@ def prop(spec, rec):
             if i in spec.get("replug", ()):
                 # the driver moves the car: unplug, plug into another (idle) station
                 evse.unplug()
-                evse = EVSE("st-%d" % (i + 2))
+                evse = new_evse("st-%d" % (i + 2))
                 evse.plugin(ev)
                 labels.add("replugged")
+            if i in spec.get("bad_resets", ()):
+                # a refused reset (above capacity) must leave the battery within its bounds
+                try:
+                    batt.reset(cap * 1.5 + 1.0)
+                except ValueError:
+                    labels.add("refused_reset")
             before = stored_charge(batt)
             e_before = ev.energy_delivered
             soc_before = before / cap
@@ -88,6 +101,8 @@ def prop(spec, rec):
                         big_noise = True
             if after >= cap * (1 - 1e-9):
                 labels.add("reaches_full")
+    if levels:
+        labels.add("finite_rate_evse")
     if crossed:
         labels.add("crosses_transition")
     if big_noise:
@@ -103,6 +118,13 @@ Z = st.one_of(st.sampled_from([0.0, 0.01, -0.01, 3.0, -3.0, 6.0, -6.0, 1.0, -1.0
 def cases(draw):
     cap, init, maxp, tsoc = draw(battery_params())
     model = draw(st.sampled_from(["ideal", "cont", "cont", "step", "step"]))
+    pilots = draw(st.lists(PILOT, min_size=1, max_size=30))
+    levels = None
+    if draw(st.integers(0, 3)) == 0:
+        # finite-rate EVSE: its levels are rounded pilots, the pilots sit up to 1e-3 A off them
+        levels = sorted({round(p, 2) for p in pilots if p > 0} | {8.0})
+        off = [0.0, -9e-4, 9e-4, -5e-4, 5e-4]
+        pilots = [max(0.0, round(p, 2) + draw(st.sampled_from(off))) if p > 0 else 0.0 for p in pilots]
     return {
         "model": model,
         "cap": cap,
@@ -112,7 +134,9 @@ def cases(draw):
         "noise": 0 if model == "ideal" else draw(st.sampled_from([0, 0.05, 1, 5, 5])),
         "V": draw(VOLT),
         "T": draw(PERIOD),
-        "pilots": draw(st.lists(PILOT, min_size=1, max_size=30)),
+        "pilots": pilots,
+        "levels": levels,
+        "bad_resets": sorted(draw(st.sets(st.integers(0, 29), max_size=2))),
         "zs": draw(st.lists(Z, min_size=1, max_size=12)),
         "replug": sorted(draw(st.sets(st.integers(1, 29), max_size=3))),
     }
